@@ -250,6 +250,12 @@ func checkC15(p *pue, c *c15Case, r *vstat.Run) outcome {
 		if !reflect.DeepEqual(fl.ast, base.ast) {
 			return violationf("ast-differs", "%s: ParseFromLexer returns a different AST than ParseString", desc)
 		}
+		if fl.err == nil && pl != nil {
+			// a parse that succeeded without AllowTrailing consumed every non-elided token: the caller's lexer is at EOF
+			if next := *pl.Peek(); !next.EOF() {
+				return violationf("trailing-position", "%s: ParseFromLexer succeeded (no trailing input allowed) but the caller's lexer still stands at %#v", desc, next)
+			}
+		}
 	}
 	// Trace changes nothing but the trace output
 	var tr res
@@ -259,6 +265,41 @@ func checkC15(p *pue, c *c15Case, r *vstat.Run) outcome {
 	}
 	if errText(tr.err) != errText(base.err) || !reflect.DeepEqual(tr.ast, base.ast) {
 		return violationf("trace-differs", "%s: the Trace option changes the result: error %q vs %q", desc, errText(tr.err), errText(base.err))
+	}
+	// AllowTrailing without a reference parser (example grammars): the caller's lexer must end where the parse
+	// stopped, i.e. parsing exactly the text in front of the lexer's next token (no trailing input allowed) gives
+	// the same AST
+	if p.built == nil && perr == nil && upErr == nil {
+		var pl3 *lexer.PeekingLexer
+		var t3 res
+		var err error
+		if m := guard(func() {
+			l, _ := p.def.Lex(c.Filename, bytes.NewReader(in))
+			pl3, err = lexer.Upgrade(l, elide...)
+			if err == nil {
+				t3.ast, t3.err = p.fromLexer(pl3, participle.AllowTrailing(true))
+			}
+		}); m != "" {
+			return violationf("panic", "%s: ParseFromLexer(AllowTrailing) panicked: %s", desc, m)
+		}
+		if err == nil && t3.err == nil {
+			next := *pl3.Peek()
+			cut := len(in)
+			if !next.EOF() {
+				cut = next.Pos.Offset
+			}
+			if cut >= 0 && cut <= len(in) {
+				var t4 res
+				if m := guard(func() { t4.ast, t4.err = p.parse("string", c.Filename, in[:cut]) }); m == "" {
+					if r != nil && cut < len(in) {
+						r.Count("trailing_input_left_for_the_caller")
+					}
+					if t4.err != nil || !reflect.DeepEqual(t3.ast, t4.ast) {
+						return violationf("trailing-position", "%s: after ParseFromLexer with AllowTrailing the caller's lexer stands at offset %d (token %#v), but parsing exactly the text before it gives error %v / a different AST", desc, cut, next, t4.err)
+					}
+				}
+			}
+		}
 	}
 	// AllowTrailing: the caller's lexer ends at the first token the parse did not consume
 	if p.built != nil && perr == nil {
@@ -319,7 +360,7 @@ func TestC15(t *testing.T) {
 			report(t, r, checkC15(pueForFixture(f), c, r), c)
 			return
 		}
-		g := gram.GenGrammar(t, gram.GenOpts{MaxProds: 4, MaxDepth: 3, TrapPercent: 15, PosStyles: true, Profiles: true})
+		g := gram.GenGrammar(t, gram.GenOpts{MaxProds: 4, MaxDepth: 3, TrapPercent: 15, PosStyles: true, Profiles: true, Parseables: true})
 		mapped := rapid.IntRange(0, 2).Draw(t, "mapped") == 0
 		var b *gram.Built
 		var err error
